@@ -168,6 +168,57 @@ def mc_files(scn_name, tag='', defects=(), invariants=(), max_steps=-1, table_id
 
 
 # ---------------------------------------------------------------------------
+# CellSync.tla (beyond C19: reservations -> /allocations)
+CELLSYNC = dict(
+    ids=[('t1/a1', 'c1'), ('t1:sub/a2', 'c1'), ('t1/a1', 'c2')], cells=['c1', 'c2'],
+    table=[('c1', 'p1', Q(pct(200), (2, 'G'), (2, 'G')), {'gpu': Q(pct(100), (1, 'G'), (2048, 'M'))}),
+           ('c2', 'p1', Q(pct(100), (1, 'G'), (1, 'G')), {})],
+    parts=['p1'], traitsets=[['gpu']],
+    quantities=[Q(pct(100), (1, 'G'), (1024, 'M')), Q(pct(100), (1024, 'm'), (1, 'g')),
+                Q(pct(200), (2097152, 'K'), (1, 'G'))],
+    ranks=[None, 50], adjs=[None, 10], maxus=[None, '1.5'],
+    patterns=['proid.a*'], prios=[1, 5])
+
+
+def tla_opt(v):
+    return '<<>>' if v is None else '<<%s>>' % tla(v)
+
+
+def mc_cellsync_files(max_steps, tag='', invariants=(), slim=False):
+    """Render MC_cellsync<tag>.tla/.cfg for CellSync.tla."""
+    c = CELLSYNC
+    mod = 'MC_cellsync%s' % tag
+    text = '\n'.join([
+        '---- MODULE %s ----' % mod,
+        'EXTENDS CellSync',
+        'cIds == {%s}' % ', '.join(tla_id(i) for i in c['ids']),
+        'cCells == %s' % tla(set(c['cells'])),
+        'cTable == %s' % tla_table(c['table']),
+        'cParts == %s' % tla(set(c['parts'])),
+        'cTraitSets == {%s}' % ', '.join(tla(set(ts)) for ts in c['traitsets']),
+        'cQuantities == {%s}' % ',\n  '.join(tla_q(q) for q in (c['quantities'][:2] if slim else c['quantities'])),
+        'cRanks == {%s}' % ', '.join(tla_opt(v) for v in c['ranks']),
+        'cAdjs == {%s}' % ', '.join(tla_opt(v) for v in (c['adjs'][:1] if slim else c['adjs'])),
+        'cMaxus == {%s}' % ', '.join(tla_opt(v) for v in (c['maxus'][:1] if slim else c['maxus'])),
+        'cPatterns == %s' % tla(set(c['patterns'])),
+        'cPrios == %s' % tla(set(c['prios'])),
+        'cDefects == {}',
+        'cMaxSteps == %s' % tla(max_steps),
+        '====', ''])
+    cfg = ['INIT Init', 'NEXT Next', 'CHECK_DEADLOCK FALSE', 'CONSTANTS',
+           ' Ids <- cIds', ' Cells <- cCells', ' PartTable <- cTable', ' PartNames <- cParts',
+           ' TraitSets <- cTraitSets', ' Quantities <- cQuantities', ' Ranks <- cRanks',
+           ' Adjs <- cAdjs', ' Maxus <- cMaxus', ' Patterns <- cPatterns', ' Prios <- cPrios',
+           ' Defects <- cDefects', ' MaxSteps <- cMaxSteps']
+    cfg += ['INVARIANT %s' % inv for inv in invariants]
+    return mod, mod + '.cfg', {mod + '.tla': text, mod + '.cfg': '\n'.join(cfg) + '\n'}
+
+
+CELLSYNC_INVARIANTS = ['InvAdmission', 'InvFresh', 'InvFreshUnits', 'InvDocCapacity',
+                       'InvIdempotent', 'InvEvents']
+
+
+# ---------------------------------------------------------------------------
 # histories
 def from_labels(labels):
     """TLC action labels -> [(ev, id, r)]."""
